@@ -22,7 +22,8 @@ BOUNDS = ("translations of surface 2, sizes and the cutoff free (5-7 real variab
           "the other pose angles and the translation of surface 1 and of the common motion pinned at exact Pythagorean/rational base points "
           "(2 quick / 6 thorough); both outcomes (contact / no contact) and the brick's lowest-vertex octants reached by path flipping "
           "(4-8 paths quick, 16 thorough); cutoff >= 0, sizes > 0, |translation| <= 8 and non-coincident sphere centres are hypotheses; "
-          "half-space/ellipsoid tracker: all pose angles pinned (translations and cutoff free); CollisionDetectionAlgorithm half-space/"
+          "half-space/ellipsoid: the sign clauses (decision vs distance, depth >= centre height) with all pose angles pinned "
+          "(translations and cutoff free), the equalities also with one angle free (CollisionDetectionAlgorithm API); CollisionDetectionAlgorithm half-space/"
           "ellipsoid contact path: checked although the curvature computation concretises a value (complex root finder), the asserted "
           "outputs do not depend on it")
 NOT_COVERED = ("convex-implicit pairs (MPR + Newton with LAPACK), mesh pairs (HalfSpace/Sphere/TriangleMesh-TriangleMesh), "
@@ -30,7 +31,8 @@ NOT_COVERED = ("convex-implicit pairs (MPR + Newton with LAPACK), mesh pairs (Ha
                "half-space/ellipsoid pair (findParaboloidAtPointWithNormal's principal curvatures; CollisionDetectionAlgorithm's radii via "
                "the complex quadratic root finder); BrokenContact reporting for previously tracked pairs; sphere/sphere with coincident "
                "centres (documented failure return); only sphere/sphere is registered in both orders, so the swap clause is checked there; "
-               "rounding / tolerance bands")
+               "exactly touching configurations reached by flips, where the original and the moved query decide the same real quantity "
+               "differently by rounding (path condition contradictory over the reals; detected by a solver query and skipped); rounding")
 
 PAIRS = {"hs_sphere": ["r2"], "sphere_sphere": ["r1", "r2"], "hs_ellipsoid": ["ea", "eb", "ec"], "hs_brick": ["ha", "hb", "hc"]}
 ANGLES = ["A_ax", "A_ay", "A_az", "B_ax", "B_ay", "B_az", "M_ax", "M_ay", "M_az"]
@@ -69,6 +71,8 @@ def instances(tier, seed):
     # condition; with a free angle z3 answers unknown on the sign clauses, so those are asserted in an instance without a free angle
     out.append(dict(name="hs_ellipsoid:tracker/lin", args=["hs_ellipsoid", "tracker"], paths=4 if tier == "quick" else 16, pair="hs_ellipsoid",
                     api="tracker", tier=tier, angle=None))
+    out.append(dict(name="hs_ellipsoid:cda/lin", args=["hs_ellipsoid", "cda"], paths=4 if tier == "quick" else 16, pair="hs_ellipsoid",
+                    api="cda", tier=tier, angle=None, allow_events=True))
     for i in out:
         i.setdefault("twin_timeout_ms", 10000)     # twins are model searches; an undecided twin is only a lost vacuity witness
     return out
@@ -138,6 +142,10 @@ def same_contact(g, enc, tag, a, b, names3, names1, mats):
 
 def obligations(enc, inst, tr):
     g = G(enc, tr)
+    if inst.get("paths", 1) > 1 and not path_feasible(enc, input_domain(enc, inst), timeout_ms=1500, rlimit=3000000, max_chars=20000):
+        # exactly touching configuration reached by a flip: the original and the moved query decide the same real quantity differently
+        # by rounding; the recorded path condition is contradictory over the reals (the property excludes the tolerance band)
+        return []
     pair, api = inst["pair"], inst["api"]
     tag = "%s %s: " % (pair, api)
     X1, X2, XM = Pose(g, "X1"), Pose(g, "X2"), Pose(g, "XM")
@@ -215,7 +223,7 @@ def obligations(enc, inst, tr):
             depth = g.out("c_depth")
             h = P.sub(depth, p12[0])
             obs.append(eq(enc, tag + "(depth - x_centre)^2 = sum a_i^2 n_i^2 (support function of the ellipsoid)", g.sq(h), h2))
-            signs = not (api == "tracker" and inst["angle"] is not None)
+            signs = inst["angle"] is None
             if signs:
                 obs.append(Ob(tag + "depth - x_centre >= 0", [Constraint(GE, g.clear_pos(h), "h>=0")], hyps=list(g.nonzero), twin=false_twin()))
                 decide("contact reported <=> depth > -cutoff", P.add(depth, cutoff))
@@ -236,9 +244,10 @@ def obligations(enc, inst, tr):
         else:
             # no contact: -x_centre - cutoff >= 0 and (x_centre + cutoff)^2 >= h^2   <=>  x_centre + h <= -cutoff
             m = P.neg(P.add(p12[0], cutoff))
-            obs.append(Ob(tag + "no contact reported => support point is at least the cutoff away from the plane",
-                          [Constraint(GE, m, "-x_c - cutoff >= 0"), Constraint(GE, P.sub(g.sq(m), h2), "(x_c+cutoff)^2 >= h^2")],
-                          twin=false_twin()))
+            if inst["angle"] is None:
+                obs.append(Ob(tag + "no contact reported => support point is at least the cutoff away from the plane",
+                              [Constraint(GE, m, "-x_c - cutoff >= 0"), Constraint(GE, P.sub(g.sq(m), h2), "(x_c+cutoff)^2 >= h^2")],
+                              twin=false_twin()))
     elif pair == "hs_brick":
         hl = g.ov("h")
         hs = []
